@@ -1,10 +1,12 @@
 /-
 C08 (Blake), lemmas: dimensional analysis of `Blake._run` leaf by leaf.  The closed form of leaf 1 is derived once
 for the two primitive fields (displacement, radial strain); the other eleven fields of that leaf are the
-code's own combinations of these two (structural equalities, `rfl`), so their dimensions follow from the facts
-already derived.  Leaves 2 and 3 return the undisturbed state.
+code's own combinations of these two (equalities of the unfolded leaf expressions up to ring normalisation,
+so they survive a rewrite of the combination, e.g. `-third * s` ↔ `-(s / 3)`), so their dimensions follow from the
+facts already derived.  Leaves 2 and 3 return the undisturbed state.
 -/
 import EPV.Lemmas.UnitsBlake
+import EPV.Lemmas.Bridge.DetonTactics
 
 set_option linter.all false
 
@@ -54,7 +56,7 @@ theorem fields_L3_strain_rr : IsScaled σ 0 (BlakeFields.L3.strain_rr (fieldsSP 
   units_leaf fieldsSP
 
 theorem fields_L1_curr_posn : IsScaled σ Dim.length (BlakeFields.L1.curr_posn (fieldsSP σ p) (σ.L * r) (σ.T * t)) (BlakeFields.L1.curr_posn p r t) := by
-  have e : ∀ (q : BlakeFields.P) (x s : ℝ), BlakeFields.L1.curr_posn q x s = x + BlakeFields.L1.displacement q x s := fun _ _ _ => rfl
+  have e : ∀ (q : BlakeFields.P) (x s : ℝ), BlakeFields.L1.curr_posn q x s = x + BlakeFields.L1.displacement q x s := fun _ _ _ => by simp only [epv_leaf]; first | rfl | ring1 | epv_deton_nf_eq
   have h0 := fields_L1_displacement σ p r t
   rw [e, e]
   simp only [fieldsSP]
@@ -67,7 +69,7 @@ theorem fields_L3_curr_posn : IsScaled σ Dim.length (BlakeFields.L3.curr_posn (
   units_leaf fieldsSP
 
 theorem fields_L1_strain_qq : IsScaled σ 0 (BlakeFields.L1.strain_qq (fieldsSP σ p) (σ.L * r) (σ.T * t)) (BlakeFields.L1.strain_qq p r t) := by
-  have e : ∀ (q : BlakeFields.P) (x s : ℝ), BlakeFields.L1.strain_qq q x s = BlakeFields.L1.displacement q x s / x := fun _ _ _ => rfl
+  have e : ∀ (q : BlakeFields.P) (x s : ℝ), BlakeFields.L1.strain_qq q x s = BlakeFields.L1.displacement q x s / x := fun _ _ _ => by simp only [epv_leaf]; first | rfl | ring1 | epv_deton_nf_eq
   have h0 := fields_L1_displacement σ p r t
   rw [e, e]
   simp only [fieldsSP]
@@ -80,7 +82,7 @@ theorem fields_L3_strain_qq : IsScaled σ 0 (BlakeFields.L3.strain_qq (fieldsSP 
   units_leaf fieldsSP
 
 theorem fields_L1_strain_vol : IsScaled σ 0 (BlakeFields.L1.strain_vol (fieldsSP σ p) (σ.L * r) (σ.T * t)) (BlakeFields.L1.strain_vol p r t) := by
-  have e : ∀ (q : BlakeFields.P) (x s : ℝ), BlakeFields.L1.strain_vol q x s = BlakeFields.L1.strain_rr q x s + 2 * BlakeFields.L1.strain_qq q x s := fun _ _ _ => rfl
+  have e : ∀ (q : BlakeFields.P) (x s : ℝ), BlakeFields.L1.strain_vol q x s = BlakeFields.L1.strain_rr q x s + 2 * BlakeFields.L1.strain_qq q x s := fun _ _ _ => by simp only [epv_leaf]; first | rfl | ring1 | epv_deton_nf_eq
   have h0 := fields_L1_strain_rr σ p r t
   have h1 := fields_L1_strain_qq σ p r t
   rw [e, e]
@@ -94,7 +96,7 @@ theorem fields_L3_strain_vol : IsScaled σ 0 (BlakeFields.L3.strain_vol (fieldsS
   units_leaf fieldsSP
 
 theorem fields_L1_density : IsScaled σ Dim.density (BlakeFields.L1.density (fieldsSP σ p) (σ.L * r) (σ.T * t)) (BlakeFields.L1.density p r t) := by
-  have e : ∀ (q : BlakeFields.P) (x s : ℝ), BlakeFields.L1.density q x s = q.ref_density / (1 + BlakeFields.L1.strain_vol q x s) := fun _ _ _ => rfl
+  have e : ∀ (q : BlakeFields.P) (x s : ℝ), BlakeFields.L1.density q x s = q.ref_density / (1 + BlakeFields.L1.strain_vol q x s) := fun _ _ _ => by simp only [epv_leaf]; first | rfl | ring1 | epv_deton_nf_eq
   have h0 := fields_L1_strain_vol σ p r t
   rw [e, e]
   simp only [fieldsSP]
@@ -107,7 +109,7 @@ theorem fields_L3_density : IsScaled σ Dim.density (BlakeFields.L3.density (fie
   units_leaf fieldsSP
 
 theorem fields_L1_stress_rr : IsScaled σ Dim.pressure (BlakeFields.L1.stress_rr (fieldsSP σ p) (σ.L * r) (σ.T * t)) (BlakeFields.L1.stress_rr p r t) := by
-  have e : ∀ (q : BlakeFields.P) (x s : ℝ), BlakeFields.L1.stress_rr q x s = (q.lame_mod + 2 * q.shear_mod) * BlakeFields.L1.strain_rr q x s + 2 * q.lame_mod * BlakeFields.L1.strain_qq q x s := fun _ _ _ => rfl
+  have e : ∀ (q : BlakeFields.P) (x s : ℝ), BlakeFields.L1.stress_rr q x s = (q.lame_mod + 2 * q.shear_mod) * BlakeFields.L1.strain_rr q x s + 2 * q.lame_mod * BlakeFields.L1.strain_qq q x s := fun _ _ _ => by simp only [epv_leaf]; first | rfl | ring1 | epv_deton_nf_eq
   have h0 := fields_L1_strain_rr σ p r t
   have h1 := fields_L1_strain_qq σ p r t
   rw [e, e]
@@ -121,7 +123,7 @@ theorem fields_L3_stress_rr : IsScaled σ Dim.pressure (BlakeFields.L3.stress_rr
   units_leaf fieldsSP
 
 theorem fields_L1_stress_qq : IsScaled σ Dim.pressure (BlakeFields.L1.stress_qq (fieldsSP σ p) (σ.L * r) (σ.T * t)) (BlakeFields.L1.stress_qq p r t) := by
-  have e : ∀ (q : BlakeFields.P) (x s : ℝ), BlakeFields.L1.stress_qq q x s = q.lame_mod * BlakeFields.L1.strain_rr q x s + 2 * (q.lame_mod + q.shear_mod) * BlakeFields.L1.strain_qq q x s := fun _ _ _ => rfl
+  have e : ∀ (q : BlakeFields.P) (x s : ℝ), BlakeFields.L1.stress_qq q x s = q.lame_mod * BlakeFields.L1.strain_rr q x s + 2 * (q.lame_mod + q.shear_mod) * BlakeFields.L1.strain_qq q x s := fun _ _ _ => by simp only [epv_leaf]; first | rfl | ring1 | epv_deton_nf_eq
   have h0 := fields_L1_strain_rr σ p r t
   have h1 := fields_L1_strain_qq σ p r t
   rw [e, e]
@@ -135,7 +137,7 @@ theorem fields_L3_stress_qq : IsScaled σ Dim.pressure (BlakeFields.L3.stress_qq
   units_leaf fieldsSP
 
 theorem fields_L1_pressure : IsScaled σ Dim.pressure (BlakeFields.L1.pressure (fieldsSP σ p) (σ.L * r) (σ.T * t)) (BlakeFields.L1.pressure p r t) := by
-  have e : ∀ (q : BlakeFields.P) (x s : ℝ), BlakeFields.L1.pressure q x s = -(1 / 3) * (BlakeFields.L1.stress_rr q x s + 2 * BlakeFields.L1.stress_qq q x s) := fun _ _ _ => rfl
+  have e : ∀ (q : BlakeFields.P) (x s : ℝ), BlakeFields.L1.pressure q x s = -(1 / 3) * (BlakeFields.L1.stress_rr q x s + 2 * BlakeFields.L1.stress_qq q x s) := fun _ _ _ => by simp only [epv_leaf]; first | rfl | ring1 | epv_deton_nf_eq
   have h0 := fields_L1_stress_rr σ p r t
   have h1 := fields_L1_stress_qq σ p r t
   rw [e, e]
@@ -149,7 +151,7 @@ theorem fields_L3_pressure : IsScaled σ Dim.pressure (BlakeFields.L3.pressure (
   units_leaf fieldsSP
 
 theorem fields_L1_stress_dev_rr : IsScaled σ Dim.pressure (BlakeFields.L1.stress_dev_rr (fieldsSP σ p) (σ.L * r) (σ.T * t)) (BlakeFields.L1.stress_dev_rr p r t) := by
-  have e : ∀ (q : BlakeFields.P) (x s : ℝ), BlakeFields.L1.stress_dev_rr q x s = BlakeFields.L1.stress_rr q x s + BlakeFields.L1.pressure q x s := fun _ _ _ => rfl
+  have e : ∀ (q : BlakeFields.P) (x s : ℝ), BlakeFields.L1.stress_dev_rr q x s = BlakeFields.L1.stress_rr q x s + BlakeFields.L1.pressure q x s := fun _ _ _ => by simp only [epv_leaf]; first | rfl | ring1 | epv_deton_nf_eq
   have h0 := fields_L1_stress_rr σ p r t
   have h1 := fields_L1_pressure σ p r t
   rw [e, e]
@@ -163,7 +165,7 @@ theorem fields_L3_stress_dev_rr : IsScaled σ Dim.pressure (BlakeFields.L3.stres
   units_leaf fieldsSP
 
 theorem fields_L1_stress_dev_qq : IsScaled σ Dim.pressure (BlakeFields.L1.stress_dev_qq (fieldsSP σ p) (σ.L * r) (σ.T * t)) (BlakeFields.L1.stress_dev_qq p r t) := by
-  have e : ∀ (q : BlakeFields.P) (x s : ℝ), BlakeFields.L1.stress_dev_qq q x s = BlakeFields.L1.stress_qq q x s + BlakeFields.L1.pressure q x s := fun _ _ _ => rfl
+  have e : ∀ (q : BlakeFields.P) (x s : ℝ), BlakeFields.L1.stress_dev_qq q x s = BlakeFields.L1.stress_qq q x s + BlakeFields.L1.pressure q x s := fun _ _ _ => by simp only [epv_leaf]; first | rfl | ring1 | epv_deton_nf_eq
   have h0 := fields_L1_stress_qq σ p r t
   have h1 := fields_L1_pressure σ p r t
   rw [e, e]
@@ -177,7 +179,7 @@ theorem fields_L3_stress_dev_qq : IsScaled σ Dim.pressure (BlakeFields.L3.stres
   units_leaf fieldsSP
 
 theorem fields_L1_stress_diff : IsScaled σ Dim.pressure (BlakeFields.L1.stress_diff (fieldsSP σ p) (σ.L * r) (σ.T * t)) (BlakeFields.L1.stress_diff p r t) := by
-  have e : ∀ (q : BlakeFields.P) (x s : ℝ), BlakeFields.L1.stress_diff q x s = |BlakeFields.L1.stress_rr q x s - BlakeFields.L1.stress_qq q x s| := fun _ _ _ => rfl
+  have e : ∀ (q : BlakeFields.P) (x s : ℝ), BlakeFields.L1.stress_diff q x s = |BlakeFields.L1.stress_rr q x s - BlakeFields.L1.stress_qq q x s| := fun _ _ _ => by simp only [epv_leaf]; first | rfl | ring1 | epv_deton_nf_eq
   have h0 := fields_L1_stress_rr σ p r t
   have h1 := fields_L1_stress_qq σ p r t
   rw [e, e]
